@@ -113,9 +113,41 @@ def gen(tier, rng):
     cases += [("read-then-dispose:%d" % i, p) for i, p in enumerate(read_then_dispose(rng, 5))]
     import c04
     cases += [(t, p[:-1]) for t, p in c04.cleanup_creates()]        # F20 shapes, without the final root disposal
+    cases += resubscribe_during_disposal()
     cases += [("random:%d" % i, p) for i, p in
               enumerate(reactive_gen.random_programs(rng.randrange(1 << 30), n, FEATS, (4, 9), (3, 8), max_nodes=10))]
     return cases
+
+
+def resubscribe_during_disposal():
+    """a computation that is being disposed wakes (through a cleanup that writes a signal) an outside watcher which reads it again
+    while it is still alive: the watcher must not keep an edge to the dead node, and later updates must work"""
+    out = []
+    k = 0
+    for comp in ("memo", "selector"):
+        for where in ("own", "child"):
+            for trig in ("dispose_scope", "dispose_node", "from_effect", "in_batch"):
+                cl = ("oncleanup", 1, [("set", 2, ("add", ("getu", 2), ("lit", 1)))])
+                ss = [cl] if where == "own" else [("scope", 9, [cl])]
+                body = ("body", None, ss, ("mul", ("get", 1), ("lit", 2)))
+                node = (comp, 4, body) if comp != "selector" else ("selector", 4, 0, body)
+                watcher = ("effect", 5, ("body", None, [("track", 2)], ("ite", ("alive", 4), ("getu" if comp == "effect" else "get", 4), ("lit", -1))))
+                # the watcher names the node, so it is created inside the block, but it is owned by the outer scope (run_in)
+                prog = [("signal", 1, ("lit", 1)), ("signal", 2, ("lit", 0)), ("signal", 8, ("lit", 0)), ("curscope", 7),
+                        ("scope", 3, [node, ("runin", 7, [watcher])])]
+                if trig == "dispose_scope":
+                    prog += [("dispose", 3)]
+                elif trig == "dispose_node":
+                    prog[-1] = ("scope", 3, [node, ("runin", 7, [watcher, ("effect", 6, ("body", None, [("if", ("lt", ("lit", 0), ("get", 8)), [("dispose", 4)], [])], ("lit", 0)))])])
+                    prog += [("set", 8, ("lit", 1))]
+                elif trig == "from_effect":
+                    prog += [("effect", 6, ("body", None, [("if", ("lt", ("lit", 0), ("get", 8)), [("dispose", 3)], [])], ("lit", 0))), ("set", 8, ("lit", 1))]
+                else:
+                    prog += [("batch", [("set", 1, ("lit", 3)), ("dispose", 3)])]
+                prog += [("set", 2, ("lit", 50)), ("set", 1, ("lit", 7)), ("set", 2, ("lit", 51))]
+                out.append(("resubscribe:%d" % k, prog))
+                k += 1
+    return out
 
 
 def oracle(prog, steps):
